@@ -3,7 +3,9 @@
    parser's sense (no root, no ".." component of std::path::Components) and not empty
    (C19_accepted_names); (2) such a name, seen the way the file system sees it - split at '/', empty and
    "." pieces ignored - has no ".." piece and is not absolute (C19_safe_name_stays_inside: the parser's
-   iterator model and the file system's view agree); (3) on the L3 model every name that reaches the
+   iterator model and the file system's view agree); the overlay is keyed by the canonical spelling of
+   a name (Path equality of the HashMap), which denotes the same path and never starts with '/'; (3) on the L3
+   model every name that reaches the
    overlay of files to save, the stack of applied file patches (backups) or a reject file comes from an
    accepted patch (C19_names_everywhere), so saving them never meets a name leaving the tree
    (C19_save_stays_inside, C19_rejects_stay_inside); (4) a patch with an unsafe name is a load error, an
@@ -51,7 +53,7 @@ Print Assumptions C19_refusal_is_clean.
 
 (* the empty state, from which every push starts, satisfies the invariant *)
 Example C19_initial_state_ok : st_ok {| a_applied := []; a_files := [] |}.
-Proof. split; [intros k m []|constructor]. Qed.
+Proof. split; [split; [intros k m []|constructor]|constructor]. Qed.
 
 (* the spellings named in the property text are refused *)
 Definition refused (patch : string) (strip : nat) : bool :=
